@@ -294,7 +294,7 @@ def _bound_loops(n: Any) -> Any:
     if k == "opt":
         return ["opt", _bound_loops(n[1])]
     if k == "rep":
-        return ["rep", _bound_loops(n[1]), n[2], n[3]]
+        return ["rep", _bound_loops(n[1]), n[2], n[3] if n[3] is not None else max(n[2], 2)]
     return n
 
 
